@@ -24,12 +24,12 @@ from utype.utils import exceptions as uexc   # noqa: E402
 
 ID = "C19"
 LEVEL = "model_checking"
-RULE = ("(a) declarations of the type grammar (leaves, generics, logical, data classes) x call forms x 5 option sets x every "
+RULE = ("(a) declarations of the type grammar (leaves, generics, logical, data classes) x call forms x 6 option sets x every "
         "container-valued input of the alphabet and the type-directed containers: canon(input) before == after; (b) 7 "
         "declaration kinds (Schema / DataClass plain default, Field(default), Field(default_factory), function default, "
         "Param default) x 6 mutable defaults ([], {}, set(), ([],), {'k': []}, [[1]]) x every history of length <= 4 "
         "(quick) / 5 over {new result, mutate the first / last result at each nesting level}; (c) 9 call kinds on shared "
-        "types, every ordered pair / triple. Non-trivial: (a) the parse converted the container, (b)/(c) every history")
+        "types (incl. a class and a function with two dependent fields), every ordered pair / triple. Non-trivial: (a) the parse converted the container, (b)/(c) every history")
 ASSUMPTIONS = [
     "snapshots are canon(): deep, type-tagged, order-sensitive for sequences; one-shot iterators are excluded (consuming "
     "them is their contract)",
@@ -43,11 +43,14 @@ OPTSETS = [
     {"invalid_items": "preserve", "invalid_keys": "preserve", "invalid_values": "preserve"},
     {"collect_errors": True},
     {"no_data_loss": True},
+    {"cast_keyword_str": True},
 ]
 MUTABLE_ATOMS = [c for c in CONTAINERS if not c.startswith(("(", "frozenset", "{(", "(("))] + \
                 ["bytearray(b'1')", "deque([1,2])", "MyList([1])", "MyDict(a=1)", "OrderedDict(a=1)", "elem(a='1')",
                  "nested_list(3,'x')", "nested_dict(3,'a','x')", "[[1, 'x'], {'a': [1]}]", "{'a': {'b': [1, '2']}, 'c': [[3]]}",
-                 "[{'a': 1, 'zz': 2}]", "{'a': 1, 'zz': [1]}", "[(1, [2])]", "{'k': {1, 2}}", "[bytearray(b'x')]"]
+                 "[{'a': 1, 'zz': 2}]", "{'a': 1, 'zz': [1]}", "[(1, [2])]", "{'k': {1, 2}}", "[bytearray(b'x')]",
+                 # mappings with keys that are not strings (cast_keyword_str converts them for the parse, not in the input)
+                 "{1: 2, 'a': 1}", "{'a': 1, 2: 'zz', None: 3}", "[{1: 2, 'a': 3}]", "{'a': {1: 2}, 'b': {2.5: 1}}", "{'i': {1: 2, 'w': 3}}"]
 
 
 def spec_universe(tier):
@@ -275,6 +278,17 @@ class S(Schema):
 def F(a: int, *args: PositiveInt, u: Union[date, int] = 0, **kw: int):
     return a, args, u, kw
 LST = T(List[PositiveInt])
+class Dep(Schema):
+    a: int = Field(required=False, dependencies=['p'])
+    b: int = Field(required=False, dependencies=['q'])
+    p: int = 0
+    q: int = 0
+@utype.parse
+def DF(a: int = Param(None, dependencies=['p']), b: int = Param(None, dependencies=['q']), p: int = None, q: int = None):
+    return a, b, p, q
+class Keyed(Schema):
+    __options__ = Options(cast_keyword_str=True, addition=True)
+    v: int = 0
 @utype.parse
 def G(a: int, *rest: PositiveInt) -> Generator[int, None, None]:
     yield a
@@ -312,6 +326,14 @@ CALL_KINDS = [
     ("coro-fail", "run_coro(CO(1, -1))"),
     ("agen-ok", "drain(AG('3'))"),
     ("agen-fail", "drain(AG(-3))"),
+    # several fields with different dependencies: the per-call bookkeeping must not leak into the declaration
+    ("dep-both", "Dep(a=1, b=2, p=3, q=4)"),
+    ("dep-both-fail", "Dep(a=1, b=2)"),
+    ("dep-first-only", "Dep(a=1, p=3)"),
+    ("dep-second-only", "Dep(b=1, q=3)"),
+    ("depfunc-both", "DF(a=1, b=2, p=3, q=4)"),
+    ("depfunc-first-only", "DF(a=1, p=3)"),
+    ("keyed-int-keys", "sorted(map(str, Keyed.__from__({1: 2, 'v': '3'}).items()))"),
 ]
 _SEQ = [0]
 
